@@ -33,6 +33,6 @@ def core_schema():
         _coupon_income="hist", _holding_costs="hist", _ucol="hist",
     )
     # algos state
-    s.declare(has_run="bool", days="int", n="int", offset="int", idx="int", lcall="date",
+    s.declare(has_run="bool", days="int", n="int", offset="int", idx="int", lcall="date", date="date", dates="opaque",
               _run_on_first_date="bool", _run_on_end_of_period="bool", _run_on_last_date="bool")
     return s
